@@ -513,6 +513,35 @@ def connclose(rng, i):
     return {"kind": "connclose-" + who, "cfg": cfg, "steps": steps}
 
 
+def connclose_cross(rng, i):
+    """Crossing connection closes: the client's Connection.Close has reached the server (its CloseOk
+    withheld) when the server closes the connection itself; it then (usually) also acknowledges the
+    client's Close, in the same burst or later - or the other way round: the server's Close and the
+    CloseOk arrive before the client's close call is even made."""
+    steps, ids, hs, cons, inflight = session_prefix(rng, i)
+    close = {"k": "connclose", "code": rng.choice([320, 541]), "text": rng.choice(["CONNECTION_FORCED - x", ""])}
+    steps.append({"do": "hold", "ch": 0})
+    steps.append({"do": "mark"})
+    steps.append({"do": "closeconn", "async": True})
+    steps.append({"do": "await", "ev": "c2s", "n": 1})
+    steps.append({"do": "sync"})
+    r = rng.random()
+    if r < 0.45:
+        steps.append(srv(close, {"k": "conncloseok"}))
+    elif r < 0.75:
+        steps.append(srv(close))
+        steps.append({"do": "sync"})
+        steps.append(srv({"k": "conncloseok"}))
+    else:
+        steps.append(srv(close))
+    steps.append({"do": "sync"})
+    steps.append({"do": "unhold", "ch": 0, "discard": True})
+    steps.append({"do": "wait", "who": "conn"})
+    steps += after_close(rng, hs, cons, inflight)
+    steps.append({"do": "closeconn"})
+    return {"kind": "connclose-cross", "cfg": {}, "steps": steps}
+
+
 def close_slow(rng, i):
     """Client close with heartbeats negotiated (1 s) while the server takes its time to answer
     CloseOk (it keeps sending heartbeats): nothing may follow the client's Close."""
@@ -1015,7 +1044,7 @@ def batches(rng, maxlen, bases, reps=1):
     return res
 
 
-FAMILIES = {"reply_then_close": reply_then_close, "chclose_cross": chclose_cross, "listener_split": listener_split, "mixed": mixed, "pubflags": pubflags, "backlog": backlog, "hb_silence": hb_silence, "listener_cross": listener_cross, "close_slow": close_slow, "consumer_drop": consumer_drop, "rpc": rpc, "content": content, "consumer": consumer, "listeners": listeners,
+FAMILIES = {"connclose_cross": connclose_cross, "reply_then_close": reply_then_close, "chclose_cross": chclose_cross, "listener_split": listener_split, "mixed": mixed, "pubflags": pubflags, "backlog": backlog, "hb_silence": hb_silence, "listener_cross": listener_cross, "close_slow": close_slow, "consumer_drop": consumer_drop, "rpc": rpc, "content": content, "consumer": consumer, "listeners": listeners,
             "connclose": connclose, "chanclose": chanclose}
 
 
